@@ -6,6 +6,7 @@ CFG = dict(
     # package mocks is exported: no overlay files (cfg key kept explicit: nothing is injected into /repo)
     overlay=["c20"],
     required_theorems=[
+        "Props.C20.setPartitionsMap_other", "Props.C20.setPartitionsMap_snapshot",
         "Props.C20.async_mock_ith_outcome", "Props.C20.async_input_without_expectation",
         "Props.C20.async_pinned_eq_fixed_of_checkers_pass", "Props.C20.async_mock_ith_outcome_partial",
         "Props.C20.exactly_one_outcome", "Props.C20.at_most_one_outcome", "Props.C20.exactly_one_outcome_partial",
@@ -38,6 +39,8 @@ CFG["manifest"] = dict(
          "the i-th handled input meets the i-th expectation and gets the scripted error or a success with the topic partitioner's choice for "
          "the configured partition count and offsets 1,2,... over the successes; exactly one outcome per input with an expectation, none beyond "
          "the script; SendMessages is all-or-nothing on the expectation count and otherwise equals the single calls up to the first failure; "
+         "a SetPartitions call enters exactly the counts the map held at call time into the mock's OWN table (setPartitionsMap_snapshot/_other; the model has "
+         "no way for a later change of the caller's map or another mock's configuration to reach it); "
          "the consumer mock delivers offsets 1,2,3,... per partition in order, errors FIFO, HighWaterMarkOffset = yields + 1; Errorf is called "
          "exactly for: input without expectation, insufficient expectations, leftovers at Close, failing checker, partitioner error, "
          "ConsumePartition of an unregistered partition or with an unexpected offset, Close of a never-started partition consumer, undrained "
@@ -49,7 +52,10 @@ CFG["manifest"] = dict(
          "Errorf call sites - variant chosen by the proof, SyncProducer.Close leftover check, Consumer.ConsumePartition decision table, "
          "HighWaterMarkOffset); everything with loops/goroutines/channels (async goroutine, SendMessages, PartitionConsumer Yield*/Close/"
          "AsyncClose, Consumer.Close/HighWaterMarks/Topics/Partitions, TopicConfig) by differential execution of the real mocks against the "
-         "compiled model (random scripts x inputs x partitioners x configurations, concurrent senders, every close order) and by the property "
+         "compiled model (random scripts x inputs x partitioners x configurations, concurrent senders, every close order; `multi` cases: 2-4 async/sync mocks built "
+         "from one Config and configured from shared map objects that the test afterwards mutates, replaces or hands to another mock, single mocks "
+         "re-configured, interleaved with sends - the oracle checks that the partitioner is called with the count that mock was given; "
+         "Consumer.HighWaterMarks answers are scribbled over and asked again) and by the property "
          "oracle. Trusted: Lean kernel; translator tools/extract + GoSem.lean; harness/line protocol. Modelled not verified: sarama's own "
          "partitioners (C17 model reused), FNV-1a re-implemented in the driver. Observed only: HighWaterMarkOffset also advances for a "
          "YieldMessage that panics on a closed partition consumer; message offsets always start at 1 whatever start offset was registered.",
